@@ -42,7 +42,8 @@ def parseL4Obs (j : Json) : Rt.Obs :=
     eventConn := natList j "eventConn", inUse := gn j "inUse", openRows := gn j "openRows",
     doubleClose := gn j "doubleClose", closedUse := gn j "closedUse", stored := gn j "stored",
     priorKept := gb j "priorKept", appended := natList j "appended", outcome := gs j "outcome",
-    finish := strList j "finish", winners := gn j "winners", preReturn := gs j "preReturn" }
+    finish := strList j "finish", winners := gn j "winners", preReturn := gs j "preReturn",
+    rowsFaithful := (getBool j "rowsFaithful").toOption.getD true }
 
 def predJson (p : Rt.Pred) : Json :=
   Json.mkObj [("returns", Json.arr (p.returns.map Json.str).toArray),
@@ -62,7 +63,7 @@ def handleL4 (j : Json) : Except String Json := do
      ("agree", Json.bool ds.isEmpty),
      ("affects", Json.arr (ds.map (fun d => Json.str d.1)).eraseDups.toArray),
      ("diff", Json.str (String.intercalate "; " (ds.map (·.2)))),
-     ("c09", Json.bool (holdsC09tx c o)),
+     ("c09", Json.bool (holdsC09tx c o)), ("c06", Json.bool o.rowsFaithful),
      ("c12", Json.bool (holdsC12 c o)), ("c13", Json.bool (holdsC13 c o)),
      ("c14", Json.bool (holdsC14 c o)), ("c15", Json.bool (holdsC15 c o)),
      ("c20", Json.bool (holdsC20 c o))])
@@ -162,7 +163,9 @@ def handleL5c (j : Json) : Except String Json := do
   let why := (if c09 then "" else "an execution used a statement prepared for another SQL or DB, or a transaction's statement ran outside its connection; ") ++
     (if c10 then "" else "a closed statement was executed; ") ++
     (if c11 then "" else s!"a statement was closed while a user still held it, or after dropping everything: open driver statements {gn oj "openStmts"}, cache entries {gn oj "cacheLeft"}, double closes {gn oj "doubleClose"}")
-  pure (Json.mkObj [("c09", Json.bool c09), ("c10", Json.bool c10), ("c11", Json.bool c11), ("c12", Json.bool txOk), ("why", Json.str why),
+  pure (Json.mkObj [("c09", Json.bool c09), ("c10", Json.bool c10), ("c11", Json.bool c11), ("c12", Json.bool txOk),
+    -- C16: the SQL a call runs is the SQL of its own arguments, whatever runs concurrently
+    ("c16", Json.bool (holdsC09 execs)), ("why", Json.str why),
     ("execs", (execs.length : Json))])
 
 def handleRt (j : Json) : Except String Json := do
